@@ -3,7 +3,7 @@ from common import *  # noqa: F401,F403
 
 RULE = ("random curves: Bezier, multi-span, repeated interior knots up to multiplicity degree+1, degree 0, polynomial and rational, scalar and "
         "vector points, exact rational data.  Non-trivial: degree >= 2 or an interior knot; distinct = distinct curves."
-        " Also: integer knot vectors handed over as python ints, rational Bezier curves of degree 3..5.")
+        " Also: integer knot vectors handed over as python ints, rational Bezier curves of degree 3..5. Also: curves stored with more degrees / knots than needed (reducible Bezier curves, elevated or refined curves): the argument must keep its representation.")
 EXPLANATION = ("L3: for exact results `rf.map deriv` decides D = dC/du on every span from the polynomial coefficients (quotient rule, cross-multiplied); "
                "where the library computes in float64 (spline difference matrix, D18) the values D(u) are compared with the exact derivative at "
                "2*deg+3 interior points of every span of D to relative 1e-9.  L2: polynomial derivatives vs the model's control points.")
@@ -82,6 +82,22 @@ def run(ctx):
         U, P, W = rand_curve(rng, pmax=(2 if rat else 4), nintmax=(1 if rat else 3), weights=("pos" if rat else "none"),
                              force_zero=(i % 7 == 0))
         run_case(ctx, ser(dict(kind="deriv", U=U, P=P, W=W)))
+    for i in range(budget(ctx, 12, 100)):
+        # curves stored with more degrees or knots than they need (a segment as a quadratic / cubic, a parabola as a cubic, constant
+        # weights, an elevated or refined random curve): whatever the derivative code cleans, it must not be the argument
+        if i % 2 == 0:
+            cu, _k = reducible_bezier(rng, rng.choice([1, 2]))
+            run_case(ctx, ser(dict(kind="deriv", U=cu["U"], P=cu["P"], W=cu["W"])))
+        else:
+            U, P, W = rand_curve(rng, pmax=2, nintmax=1, weights=rng.choice(["none", "none", "pos"]))
+            cv = make_curve(U, P, W)
+            if rng.random() < 0.6:
+                cv.degree_increase(1)
+            else:
+                cv.knot_insert([U[0] + (U[-1] - U[0]) * rng.choice(GRID)])
+            st = curve_state(cv)
+            run_case(ctx, ser(dict(kind="deriv", U=list(st[0]), P=[tuple(q) for q in st[1]], W=None if st[2] is None else list(st[2]))))
+        ctx["rec"].count("family", "reducible")
     for i in range(budget(ctx, 8, 60)):
         # rational Bezier curves of higher degree (their derivative goes through the Bezier product of degree 2p)
         pb = 3 + i % 3
